@@ -74,6 +74,8 @@ impl TxDependency {
             return next;
         }
         for &tx in affects.iter() {
+            #[cfg(grevm_verif)]
+            crate::verif::sched_point("win.dep.remove.scan");
             let mut dependent = self.dependent_state[tx].lock();
             if dependent.dependency == Some(txid) {
                 dependent.dependency = None;
@@ -95,6 +97,8 @@ impl TxDependency {
     pub(crate) fn commit(&self, txid: TxId) {
         let next = txid + 1;
         if next < self.num_txs {
+            #[cfg(grevm_verif)]
+            crate::verif::sched_point("win.dep.commit");
             let mut state = self.dependent_state[next].lock();
             if state.onboard {
                 state.dependency = None;
@@ -110,6 +114,8 @@ impl TxDependency {
     /// immediately; otherwise committing `txid - 1` releases it through [`Self::commit`].
     pub(crate) fn key_tx(&self, txid: TxId, commit_idx: PublishedCursorReader<'_>) {
         let mut state = self.dependent_state[txid].lock();
+        #[cfg(grevm_verif)]
+        crate::verif::sched_point("win.dep.key_tx.locked");
         if txid > commit_idx.get() {
             state.dependency = Some(txid);
         }
@@ -135,6 +141,8 @@ impl TxDependency {
                 dep_id < txid,
                 "dependency transaction {dep_id} must precede dependent transaction {txid}",
             );
+            #[cfg(grevm_verif)]
+            crate::verif::sched_point("win.dep.add");
             let mut dep = self.affect_txs[dep_id].lock();
             let mut dep_state = self.dependent_state[dep_id].lock();
             let mut state = self.dependent_state[txid].lock();
